@@ -107,6 +107,13 @@ def make_objs(g, perm, kind):
         nm = NAMES[perm[i]]
         if kind == 'i':
             objs.append(worldrt.InstLayer(nm, 'm', [objs[b] for b in bs]))
+        elif kind == 'e':
+            # layers compared by value (IMinimalTestLayer asks for __name__,
+            # __module__ and __bases__ only): every mention of a base is a
+            # fresh object equal to the layer of that name
+            def copy(j):
+                return worldrt.EqLayer(NAMES[perm[j]], 'm', [copy(b) for b in g[j]])
+            objs.append(worldrt.EqLayer(nm, 'm', [copy(b) for b in bs]))
         else:
             objs.append(type(nm, tuple(objs[b] for b in bs) or (object,), {'__module__': 'm'}))
     return objs
@@ -120,9 +127,10 @@ def anc_sets(g):
 
 
 def check_result(res, subset_objs, objs, anc, where, viol, sigextra):
-    idx = {id(o): i for i, o in enumerate(objs)}
-    got = [idx.get(id(o)) for o in res]
-    want = sorted(idx[id(o)] for o in subset_objs)
+    key = (lambda o: o.__name__) if isinstance(objs[0], worldrt.EqLayer) else id
+    idx = {key(o): i for i, o in enumerate(objs)}
+    got = [idx.get(key(o)) for o in res]
+    want = sorted(idx[key(o)] for o in subset_objs)
     if sorted(x for x in got if x is not None) != want or None in got or len(got) != len(want):
         viol.append(('not_a_permutation', where, got))
         return None
@@ -153,6 +161,8 @@ def run_direct(n, gsel, mode):
             kinds = ['i']
             if c3 and (n <= 4 or mode == 'thorough'):
                 kinds.append('c')
+            if n <= 4:
+                kinds.append('e')
             for kind in kinds:
                 objs = make_objs(g, perm, kind)
                 if n <= 4:
@@ -260,7 +270,10 @@ def run_e2e(n, gi):
     viol = []
     evals = 0
     nt = 0
-    for perm in itertools.permutations(range(n)):
+    # (shape outermost: a world whose tests name their layers by dotted string
+    # then follows a world with the same names on OTHER nodes of the graph -
+    # nothing of the earlier run may be used to resolve the names)
+    for shape, perm in ((sh, p) for sh in (None, 'eq', 'lstr') for p in itertools.permutations(range(n))):
         if not canonical(g, perm):
             continue
         names = [NAMES[perm[i]] for i in range(n)]
@@ -268,9 +281,12 @@ def run_e2e(n, gi):
         for sub in worlds.nonempty_subsets(n):
             ref = ['vtw.tests.' + o.__name__ for o in
                    R.order_by_bases([ref_objs[i] for i in sub])]
-            for unit in (False, True):
-                for nie in (False, True):
+            for unit, nie in ((u, ni) for u in (False, True) for ni in (False, True)):
+                if True:
                     layers = worlds.layer_specs(g, 'i', names, [list(worlds.HOOKS_SD)] * n)
+                    if shape == 'eq':
+                        for L in layers:
+                            L['ish'] = 'eq'
                     if nie:
                         # 'A' sorts before a..e: it runs first, cannot be torn
                         # down, so every other layer is resumed in a child
@@ -278,7 +294,8 @@ def run_e2e(n, gi):
                                           'h': list(worlds.HOOKS_SD),
                                           'f': {'tearDown': 'NIE'}})
                     for order in (sub, sub[::-1]):
-                        tests = [{'n': 't' + names[i], 'l': names[i], 's': 'pass'} for i in order]
+                        # shape 'lstr': the tests name their layer by dotted string
+                        tests = [{'n': 't' + names[i], 'l': names[i], 's': 'pass', 'lstr': shape == 'lstr'} for i in order]
                         if unit:
                             tests.insert(len(tests) // 2, {'n': 'u', 'l': None, 's': 'pass'})
                         if nie:
@@ -287,7 +304,7 @@ def run_e2e(n, gi):
                         evals += 1
                         hdr = runrt.HDR_RE.findall(res.text)
                         want = ([UNIT] if unit else []) + (['vtw.tests.A'] if nie else []) + ref
-                        where = (n, g, list(perm), sub, unit, nie)
+                        where = (n, g, list(perm), sub, unit, nie, shape)
                         if hdr != want:
                             viol.append(('header_sequence', where, (hdr, want)))
                         # execution order of the layers, from the trace
